@@ -36,12 +36,17 @@ pub struct CaptureConfig {
 pub struct CaptureDeserializer {
     pub sink: Arc<Mutex<Vec<(String, usize)>>>,
     pub built: Arc<AtomicUsize>,
+    /// the appender of version 3 takes this long to build (the live scenarios: longer than any refresh rate in use)
+    pub slow_v3: Duration,
 }
 impl Deserialize for CaptureDeserializer {
     type Trait = dyn log4rs::append::Append;
     type Config = CaptureConfig;
     fn deserialize(&self, config: CaptureConfig, _: &Deserializers) -> anyhow::Result<Box<dyn log4rs::append::Append>> {
         let instance = self.built.fetch_add(1, Ordering::SeqCst) + 1;
+        if config.tag == "v3" && !self.slow_v3.is_zero() {
+            std::thread::sleep(self.slow_v3);
+        }
         Ok(Box::new(Capture { tag: config.tag, instance, sink: self.sink.clone() }))
     }
 }
@@ -104,7 +109,7 @@ fn check_case(case: &Value, fmt: usize) -> Option<Value> {
     let built = Arc::new(AtomicUsize::new(0));
     let mk = || {
         let mut d = Deserializers::default();
-        d.insert("capture", CaptureDeserializer { sink: sink.clone(), built: built.clone() });
+        d.insert("capture", CaptureDeserializer { sink: sink.clone(), built: built.clone(), slow_v3: Duration::ZERO });
         d
     };
     let base = SystemTime::UNIX_EPOCH + Duration::from_secs(1_700_000_000);
